@@ -484,6 +484,86 @@ func c19callDirect(cl *c19callable, vm *ugo.VM, args []ugo.Object) (ugo.Object, 
 	return nil, errors.New("c19: unknown kind")
 }
 
+// c19callSplit calls cl with a live VM, the first k arguments as the call's normal arguments and the rest as its
+// variadic arguments (what `f(a, b, ...rest)` and Invoker-made calls produce). ok=false: the callable has no such entry.
+func c19callSplit(cl *c19callable, vm *ugo.VM, args []ugo.Object, k int) (v ugo.Object, err error, ok bool) {
+	mk := func() ugo.Call { return ugo.NewCall(vm, append([]ugo.Object{}, args[:k]...), append([]ugo.Object{}, args[k:]...)...) }
+	callObj := func(f ugo.Object) (ugo.Object, error, bool) {
+		if f == nil || !f.CanCall() {
+			return nil, nil, false
+		}
+		if ex, isEx := f.(ugo.ExCallerObject); isEx {
+			v, err := ex.CallEx(mk())
+			return v, err, true
+		}
+		return nil, nil, false
+	}
+	switch cl.kind {
+	case c19kBuiltin, c19kModule:
+		return callObj(cl.fn)
+	case c19kErrNew, c19kIndexGet:
+		f, err := cl.recv.IndexGet(ugo.String(cl.name))
+		if err != nil {
+			return nil, nil, false
+		}
+		return callObj(f)
+	case c19kCallName:
+		if nc, isNC := cl.recv.(ugo.NameCallerObject); isNC {
+			v, err := nc.CallName(cl.name, mk())
+			return v, err, true
+		}
+	}
+	return nil, nil, false
+}
+
+// routeD: inside a Go callback of a running script (live VM), every split of the arguments between the normal and the
+// variadic part of the Call; returns the first panicking outcome, else the outcome of the all-variadic split.
+func (h *c19harness) routeD(cl *c19callable, args []ugo.Object) (c19out, error) {
+	const src = `param cb; return cb()`
+	vm, err := h.vmFor(src)
+	if err != nil {
+		return c19out{}, err
+	}
+	ran := false
+	var first, bad c19out
+	have, haveBad := false, false
+	cb := &ugo.Function{Name: "cb", ValueEx: func(c ugo.Call) (ugo.Object, error) {
+		live := c.VM()
+		ran = true
+		for k := 0; k < len(args); k++ {
+			applicable := true
+			o := h.guard(func() (ugo.Object, error) {
+				v, err, ok := c19callSplit(cl, live, args, k)
+				applicable = ok
+				return v, err
+			})
+			if !applicable {
+				break
+			}
+			h.c.Count("split_calls")
+			if !have {
+				first, have = o, true
+			}
+			if o.panicked && !haveBad {
+				bad, haveBad = o, true
+			}
+		}
+		return ugo.Undefined, nil
+	}}
+	outer := h.guard(func() (ugo.Object, error) { return vm.Run(nil, cb) })
+	if outer.panicked || outer.err != nil || !ran {
+		delete(h.scripts, src)
+		return c19out{}, fmt.Errorf("route d carrier script failed: panic=%v err=%v ran=%v %s", outer.panicked, outer.err, ran, outer.pmsg)
+	}
+	if haveBad {
+		return bad, nil
+	}
+	if !have {
+		return c19out{val: ugo.Undefined}, nil
+	}
+	return first, nil
+}
+
 func (h *c19harness) routeA(cl *c19callable, args []ugo.Object) c19out {
 	return h.guard(func() (ugo.Object, error) { return c19callDirect(cl, nil, args) })
 }
@@ -923,6 +1003,8 @@ func (h *c19harness) execRoute(cl *c19callable, route string, idx []int, args []
 			return h.routeA(cl, args), nil
 		case "b":
 			return h.routeB(cl, args)
+		case "d":
+			return h.routeD(cl, args)
 		}
 		return h.routeC(cl, args)
 	}
@@ -957,7 +1039,7 @@ func (h *c19harness) execRoute(cl *c19callable, route string, idx []int, args []
 		if core19 == "" {
 			core19 = h.typeSig(idx)
 		}
-		for _, r := range []string{"a", "b", "c"} {
+		for _, r := range []string{"a", "b", "c", "d"} {
 			_, _ = h.stateLog.WriteString("C " + cl.id + "|" + r + "|" + core19 + "\n")
 		}
 		_ = h.stateLog.Sync()
@@ -1007,8 +1089,11 @@ func (h *c19harness) runTuple(cl *c19callable, idx []int) {
 		}
 	}
 	ran := false
-	for _, route := range []string{"a", "b", "c"} {
+	for _, route := range []string{"a", "b", "c", "d"} {
 		route := route
+		if route == "d" && len(idx) == 0 {
+			continue
+		}
 		if !c.Begin(func() string { return c19desc(env, cl, route, idx) }) {
 			continue
 		}
